@@ -49,6 +49,7 @@ pub fn entries() -> Vec<Entry> {
         Entry { id: "C09", rule: "allocate-drop-GC cycles (10..40 cycles quick) with generated size mixes incl. LOS/non-moving/weak/finalizers for every collecting plan; oracle = no out_of_memory, used_bytes after cycle k <= max(first three) + one chunk, free+used <= total; non-trivial = >=10 cycles", run: c09 },
         Entry { id: "C10", rule: "heaps filled with reachable data, then alloc_with_options over all 8 flag combinations x size classes (small..usize::MAX) x semantics; oracle over callback counters: no OOM call when disallowed, no block_for_gc when not at safepoint, OOM only after a GC (or obviously too large), null on OOM; non-trivial = >=1 call returned null or called out_of_memory", run: c10 },
         Entry { id: "C11", rule: "generated programs x 11 plans x 1-4 workers x 1-3 mutators with the scheduler event log on; per collection: stop_all_mutators exactly once and before the first stop-the-world bucket opens, no stop-the-world packet and no scan_object/copy callback outside the stop..resume bracket (copy only, for the concurrent plan), every bound mutator scanned exactly once per root-scanning round, resume_mutators exactly once with no packet executing and none pending; non-trivial = >=2 mutators bound and >=2 workers and >=2 collections", run: c11 },
+        Entry { id: "C14", rule: "generated programs x 10 collecting plans x 1-4 workers: user GC requests (also back to back), allocation-triggered GCs, prepare_to_fork requested from inside a running GC, fork cycles; oracles: every accepted request is followed by a completed collection, a watchdog over the mirrored scheduler state reports 'all N workers parked, goal current or requested, no scheduler event for 8 s', after the program all workers are parked with no goal, parked counts of monitor and event log agree; non-trivial = >=2 collections and (>=1 fork request made during a GC or >=2 collections requested back to back)", run: c14 },
         Entry { id: "C15", rule: "generated programs x 11 plans x 1-4 workers with the scheduler event log on; every stop-the-world bucket other than Prepare is opened by the last parked worker (all N parked in the log, no packet executing) with every earlier enabled bucket open and empty (snapshot taken inside WorkBucket::update), in stage order; adds and starts of packets match by type, nothing pending and every stop-the-world bucket closed and empty at resume_mutators; non-trivial = >=3 workers and >=1 bucket opened after packets had been added to it by packets of earlier buckets, or >=2 packets executing in parallel", run: c15 },
         Entry { id: "C12", rule: "ConcurrentImmix programs sized to cross the concurrent trigger, overwriting references of snapshot objects / region copies / new allocations during marking; oracle = shadow walk after every pause + survivors of snapshot; non-trivial = >=1 pointer overwrite while concurrent marking was in progress and >=2 pauses", run: c12 },
         Entry { id: "C13", rule: "programs with VM-side ephemeron tables incl. dependency chains of depth 0..6; oracle = is_reachable of the model's retained set at the first process_weak_refs call, closure of values traced in round j reachable at round j+1, true => another call / false => none, forward_weak_refs exactly when the plan needs it; non-trivial = >=3 rounds in one GC", run: c13 },
@@ -200,6 +201,18 @@ fn c11(c: &mut Check) {
     });
 }
 
+fn c14(c: &mut Check) {
+    let n = c.tier.pick(900, 40000);
+    run_e1(c, "requests-and-wakeups", n, "C14", &["C16"], || gen::case(&COLLECTING_PLANS, Mix { fork: 6, gc_weight: 16, churn_weight: 2, big: false, mutator_ops: true, ..Mix::BASIC }, "C14", 60), |v| {
+        let nt = cv(v, "sched_pauses") >= 2 && (cv(v, "fork_during_gc") > 0 || cv(v, "gc_requested") >= 2) && cv(v, "c14_idle_at_end") > 0;
+        let mut l = labels_common(v);
+        if cv(v, "fork_during_gc") > 0 {
+            l.push("fork_requested_during_gc");
+        }
+        (nt, l)
+    });
+}
+
 fn c15(c: &mut Check) {
     let n = c.tier.pick(1400, 60000);
     run_e1(c, "bucket-order-and-packets", n, "C15", &[], || gen::case(&PLANS, Mix { gc_weight: 12, churn_weight: 2, weak: true, finalizers: true, ephemerons: true, ..Mix::BASIC }, "C15", 80), |v| {
@@ -242,7 +255,7 @@ fn c13(c: &mut Check) {
 
 fn c16(c: &mut Check) {
     let n = c.tier.pick(500, 20000);
-    run_e1(c, "fork-cycles", n, "C16", &["C01"], || gen::case(&COLLECTING_PLANS, Mix { fork: 9, gc_weight: 10, churn_weight: 1, big: false, ..Mix::BASIC }, "C16", 60), |v| {
+    run_e1(c, "fork-cycles", n, "C16", &["C01", "C14"], || gen::case(&COLLECTING_PLANS, Mix { fork: 9, gc_weight: 10, churn_weight: 1, big: false, ..Mix::BASIC }, "C16", 60), |v| {
         (cv(v, "fork_cycle") >= 2 && cv(v, "gc") >= 2, labels_common(v))
     });
 }
